@@ -212,7 +212,7 @@ def drive(PositionGrid, alg, N, text, order_seed=0):
                  pg.get_distances_of_position_grid]
         random.Random(order_seed).shuffle(calls)
         from vlib.rec import call_and_hold
-        call_and_hold(calls, "C05.returned_object_stable")
+        call_and_hold(calls, "C05.returned_object_stable", hostile_caller=True)
         if order_seed % 2 == 0:
             for c in calls[::-1]:  # repeated calls on the same object must still satisfy the oracle
                 c()
